@@ -160,6 +160,13 @@ pub enum Op {
         t: Target,
         font: u8,
     },
+    /// `\newInt<target> `: the name becomes, locally, a fresh integer variable (value 0). Skipped
+    /// while `\globaldefs` is non-zero (the command always defines locally; what it should do under
+    /// `\globaldefs` is not stated anywhere).
+    NewInt {
+        t: Target,
+        id: u16,
+    },
     CountDef {
         g: bool,
         t: Target,
